@@ -106,11 +106,16 @@ pub fn rule(property: &str) -> String {
 pub fn assumptions(property: &str) -> Vec<String> {
     let mut v = vec![
         "sampled, not exhaustive: a clean batch is evidence, not proof".to_string(),
-        "the hooks H1-H3 are the only places where hash iteration order reaches an output (audited by `selfcheck audit` against real RandomState orders)".to_string(),
+        "the hooks H1-H5 are the only places where hash iteration order reaches an output or an error text (audited by `selfcheck audit` against real RandomState orders)".to_string(),
         "determinism of the harness itself is established by `selfcheck determinism` (same seeds, different process and worker counts, identical event-log digests)".to_string(),
     ];
     match property {
         "C10" => v.push("the reference model is computed from the abstract modules returned by pyxis's own parser; a parser defect could mislead model and implementation alike".into()),
+        "C14" => v.push("what a module declares is read through pyxis's own parser, cross-checked against a token-level census of declarations and a token-level reader of backend blocks that belong to the harness".into()),
+        "C12" => {
+            v.push("the build thread's 512 KiB stack in this optimised simulator stands in for Rust's default 2 MiB thread stack in an unoptimised build; the ratio of frame sizes is an estimate".into());
+            v.push("inputs that ask for a table of more than 10 000 slots (vftable #[index]/#[size]) are skipped and counted: the property allows work proportional to the tables asked for".into());
+        }
         _ => {}
     }
     v
